@@ -611,7 +611,11 @@ class Interp:
             clauses = contract.comps.get(ordn)
         for j, cl in enumerate(clauses or []):
             tree = self.parse_clause(cl)
+            # (relaxed for C05) applications of UNINTERPRETED functions (R.ufunc) are state independent too: allowed
+            ufn = {id(sub.func) for sub in ast.walk(tree) if isinstance(sub, ast.Call) and isinstance(sub.func, ast.Name) and sub.func.id in self.registry.ufuncs and not sub.keywords}
             for sub in ast.walk(tree):
+                if id(sub) in ufn or (isinstance(sub, ast.Call) and id(sub.func) in ufn):
+                    continue
                 if isinstance(sub, (ast.Attribute, ast.Call, ast.Subscript)) or (isinstance(sub, ast.Name) and sub.id not in (g.target.id, "_y", "True", "False", "None")):
                     raise Unsupported("comprehension element invariant may only mention %s and _y" % g.target.id)
             l1 = {g.target.id: item, "_y": elt}
